@@ -93,6 +93,9 @@ def _case(rng, kind, tag):
     if kind == 'exec':
         prog = G.gen_exec_program(rng, max_stmts=rng.choice([4, 6, 8]))
         pl = G.layout(rng, prog, 'plain')
+    elif kind in ('op', 'dattr'):
+        prog = G.gen_op_program(rng, kind, max_stmts=rng.choice([3, 5, 7]))
+        pl = G.layout(rng, prog, 'plain')
     else:
         prog = G.gen_program(rng, max_depth=rng.choice([2, 3]), max_stmts=rng.choice([2, 4, 6]))
         pl = G.layout(rng, prog, rng.choice(['plain', 'wild', 'tight']))
@@ -107,8 +110,11 @@ def _case(rng, kind, tag):
 
 
 def generate(ctx):
+    rng = ctx.rng.fork('op')
+    for i in range(ctx.pick(200, 4000)):
+        yield _case(rng.fork(i), 'op' if i % 4 else 'dattr', ['op', i])
     rng = ctx.rng.fork('exec')
-    for i in range(ctx.pick(320, 6000)):
+    for i in range(ctx.pick(220, 5000)):
         yield _case(rng.fork(i), 'exec', ['exec', i])
     rng = ctx.rng.fork('parse')
     for i in range(ctx.pick(900, 16000)):
@@ -119,7 +125,7 @@ def search(ctx, broken):
     rng = ctx.rng.fork('search')
     i = 0
     while True:
-        yield _case(rng.fork(i), 'exec', ['search', i])
+        yield _case(rng.fork(i), 'exec' if i % 2 else 'op', ['search', i])
         i += 1
         if i % 4 == 0:
             yield _case(rng.fork(-i), 'parse', ['search-parse', i])
@@ -179,12 +185,40 @@ def _val(v):
     return v
 
 
-def _run(text, n):
+class _Log(object):
+    """the external entity LOG of the instance-based bodies: Twice returns a value, Note has a side effect"""
+
+    def __init__(self, m):
+        self.m = m
+
+    def Twice(self, v):
+        return 2 * v
+
+    def Note(self, v):
+        a = self.m.select_any('A', lambda sel: sel.Id == 1)
+        a.N = a.N + v
+
+
+def _run(text, n, home='f'):
     m = _m['exec_loader'].build_metamodel()
     funcs = G.exec_functions(m)
-    m.find_symbol = funcs.__getitem__            # the interpreter resolves ::f() through domain.find_symbol
+    funcs['LOG'] = _Log(m)
+    m.find_symbol = funcs.__getitem__            # the interpreter resolves ::f() / LOG::f() through domain.find_symbol
     try:
-        r = _m['interpret'].run_function(m, 'f', text, {'n': n})
+        if home == 'f':
+            r = _m['interpret'].run_function(m, 'f', text, {'n': n})
+        else:
+            inst = m.select_any('A', lambda sel: sel.Id == 2)
+
+            def bump(self_, v):
+                self_.N = self_.N + v
+                return self_.N
+            type(inst).Bump = bump
+            mc = m.find_metaclass('A')
+            if home == 'op':
+                r = _m['interpret'].run_operation(mc, 'op', text, {'n': n}, inst)
+            else:
+                r = _m['interpret'].run_derived_attribute(mc, 'D', text, 'D', inst)
         res = ['ok', _val(r)]
     except Exception as e:                       # the comparison is between spellings; the class is the observation
         res = ['exception', type(e).__name__]
@@ -229,13 +263,50 @@ def _mk_ooa():
             oir = m.new('R_OIR')
             relate(oir, r, 201)
             relate(oir, objs[e], 201)
-    return m, s_sync
+    # homes of instance-based bodies: operation A.op(n), derived attribute A.D; what they call: operation
+    # A.Bump(v), class operation A.Count(), bridges LOG::Twice(v) / LOG::Note(v), events A1, A2 (instance state
+    # machine) and A3 (assigner state machine)
+    a = objs['A']
+
+    def tfr(name, instance_based, ret, parms):
+        t = m.new('O_TFR', Name=name, Instance_Based=instance_based)
+        relate(t, a, 115)
+        relate(t, dt(ret), 116)
+        for pn in parms:
+            tp = m.new('O_TPARM', Name=pn)
+            relate(tp, t, 117)
+            relate(tp, dt('integer'), 118)
+        return t
+    op = tfr('op', 1, 'integer', ['n'])
+    tfr('Bump', 1, 'integer', ['v'])
+    tfr('Count', 0, 'integer', [])
+    ee = pe(m.new('S_EE', Name='LOG', Key_Lett='LOG'))
+    for bn, ret in (('Twice', 'integer'), ('Note', 'void')):
+        b = m.new('S_BRG', Name=bn)
+        relate(b, ee, 19)
+        relate(b, dt(ret), 20)
+        bp = m.new('S_BPARM', Name='v')
+        relate(bp, b, 21)
+        relate(bp, dt('integer'), 22)
+    for sm_kind, labels in (('SM_ISM', ('A1', 'A2')), ('SM_ASM', ('A3',))):
+        sm = m.new('SM_SM')
+        for k, lab in enumerate(labels):
+            m.new('SM_EVT', SM_ID=sm.SM_ID, SMspd_ID=m.id_generator.next(), Numb=k + 1, Drv_Lbl=lab, Mning='go')
+        m.new(sm_kind, Obj_ID=a.Obj_ID, SM_ID=sm.SM_ID)
+    oa = m.new('O_ATTR', Name='D')
+    relate(oa, a, 102)
+    relate(oa, dt('integer'), 114)
+    ob = m.new('O_BATTR')
+    relate(ob, oa, 106)
+    od = m.new('O_DBATTR')
+    relate(od, ob, 107)
+    return m, {'f': s_sync, 'op': op, 'dattr': od}
 
 
-def _prebuild(text):
-    m, s_sync = _mk_ooa()
-    s_sync.Action_Semantics_internal = text
-    s_sync.Suc_Pars = 1
+def _prebuild(text, home='f'):
+    m, homes = _mk_ooa()
+    homes[home].Action_Semantics_internal = text
+    homes[home].Suc_Pars = 1
     try:
         _m['prebuild'].prebuild_model(m)
     except Exception as e:
@@ -299,10 +370,11 @@ def run_impl(case):
 
     b_out, b_tree = _parse(base)
     stats['parse_' + b_out.split(':')[0]] = 1
-    exec_kind = case['kind'] == 'exec'
+    exec_kind = case['kind'] in ('exec', 'op', 'dattr')
+    home = {'exec': 'f'}.get(case['kind'], case['kind'])
     if exec_kind:
-        b_run = _run(base, case['n'])
-        b_pre = _prebuild(base)
+        b_run = _run(base, case['n'], home)
+        b_pre = _prebuild(base, home)
         stats['run_' + b_run[0][0]] = 1
         stats['prebuild_' + b_pre[0]] = 1
     for mode, text in texts[1:]:
@@ -315,14 +387,14 @@ def run_impl(case):
             fail('parse-tree', 'the syntax trees differ beyond cardinality/operator/boolean value spelling: %s'
                  % _first_diff(b_tree, tree), mode, text)
         if exec_kind:
-            run = _run(text, case['n'])
+            run = _run(text, case['n'], home)
             if run[0] != b_run[0]:
-                fail('interpret-result', 'run_function(n=%s) gives %r for the lower-case spelling and %r for the %s '
-                     'spelling' % (case['n'], b_run[0], run[0], mode), mode, text)
+                fail('interpret-result', 'interpreting the body (home %s, n=%s) gives %r for the lower-case spelling '
+                     'and %r for the %s spelling' % (home, case['n'], b_run[0], run[0], mode), mode, text)
             elif run[1] != b_run[1]:
                 fail('interpret-population', 'the final populations differ: %s' % _first_diff(b_run[1], run[1]),
                      mode, text)
-            pre = _prebuild(text)
+            pre = _prebuild(text, home)
             if pre != b_pre:
                 fail('prebuild-instances', 'the prebuilt ACT_/V_/E_ instances differ: %s' % _first_diff(b_pre, pre),
                      mode, text)
